@@ -42,7 +42,7 @@ GUARDS = [
 # property → (theorems, uses the DOM sub-family)
 TARGETS = {
     "C01": ["addMark_applies", "removeMark_applies"],
-    "C04": ["replace_undo_transitive", "removeMarkStep_undo", "addMarkStep_undo", "markHistory_undo", "markHistory_undo_bmp",
+    "C04": ["replace_undo_transitive", "replaceAround_undo_bmp", "removeMarkStep_undo", "addMarkStep_undo", "markHistory_undo", "markHistory_undo_bmp",
             "family_step", "family_history_undo", "family_history_undo_run", "opHistory_undo", "structHistory_undo_bmp",
             "structHistory_undo_bmp'", "mixedHistory_undo_bmp",
             "delete_residual", "delete_residual_around", "insertInline_residual", "insertInline_residual_around",
